@@ -117,6 +117,18 @@ Theorem alias_resolution : forall ents B t0,
   resolve_impl (prm_alias_bounded code_params) ents (e_name B) t0 = ADone (alias_spec ents t0).
 Proof. exact alias_resolution_code. Qed.
 
+(* ... in relational terms: it returns x exactly for the reflexive-transitive
+   target x, and "dangling" exactly for a chain that reaches a missing name or
+   loops (pigeonhole on the entry list) *)
+Theorem alias_resolution_relational_complete : forall ents B t0,
+  find_exact (e_name B) ents = Some B -> e_kind B = EAlias t0 ->
+  exists r, resolve_impl true ents (e_name B) t0 = ADone r /\
+            match r with Some x => resolves_to ents t0 x | None => dangling ents t0 end.
+Proof. exact resolve_impl_relational. Qed.
+
+Theorem alias_spec_dangling_complete : forall ents t, alias_spec ents t = None -> dangling ents t.
+Proof. exact alias_spec_none_dangling. Qed.
+
 Theorem alias_resolution_total : forall ents base t,
   exists r, resolve_impl true ents base t = ADone r.
 Proof. exact resolve_impl_bounded_total. Qed.
